@@ -19,6 +19,7 @@ structure DSt where
   torn : Option Name          -- pattern whose save was torn since the last successful save
   dirty : Bool                -- the model's `unsaved` flag
   lost : Bool                 -- the last restart dropped an ACKNOWLEDGED registration (file behind the runtime map)
+  files : List (Name × Nat)   -- swamps on disk: how many treasures each persisted (op `live`)
 
 def lookupOf (s : String) : Lookup :=
   if s == "iteratesMap" then .iteratesMap else if s == "ranked" then .ranked else .unknown
@@ -39,7 +40,7 @@ def results (cfg : Cfg) (reg : List Entry) (n : Name) : List String :=
 
 def step (d : DSt) (line : String) : DSt × String :=
   match line.splitOn " " with
-  | ["case", _] => ({ d with reg := [], pre := none, spec := [], disk := [], torn := none, dirty := false, lost := false }, line)
+  | ["case", _] => ({ d with reg := [], pre := none, spec := [], disk := [], torn := none, dirty := false, lost := false, files := [] }, line)
   | ["reg", s, r, w, m, idle, wi, size] =>
     match idle.toInt?, wi.toInt?, size.toInt? with
     | some i, some v, some z =>
@@ -83,6 +84,14 @@ def step (d : DSt) (line : String) : DSt × String :=
     let f4 := if results d.cfg d.spec n != rs then "\t#F:C21-acknowledged-registration-lost" else ""
     let f3 := if ps.any (fun e => e != defaultEntry n && !(d.spec.contains e)) then (if d.cfg.unchangedChecksType then "\t#F:C21-acknowledged-registration-lost" else "\t#F:C21-reregistration-ignored") else ""
     (d, "res " ++ " ".intercalate rs ++ f1 ++ f2 ++ f3 ++ (if f1 == "" && f2 == "" && f3 == "" then f4 else ""))
+  | ["live", s, r, w] =>
+    -- a swamp is created with the settings GetBySwampName resolves at that moment: an in-memory swamp starts empty and
+    -- leaves nothing on disk, a persistent one loads what is there and persists the new treasure on close
+    let n : Name := ⟨bytesOf s, bytesOf r, bytesOf w⟩
+    let eff := ((possible d.cfg d.reg n).head?).getD (defaultEntry n)
+    let prev := ((d.files.find? fun e => e.1 == n).map (·.2)).getD 0
+    if eff.f.inMem then (d, s!"live count=1 disk={decide (prev > 0)}")
+    else ({ d with files := (n, prev + 1) :: d.files.filter (fun e => e.1 != n) }, s!"live count={prev + 1} disk=true")
   | ["restart"] =>
     let old := match d.pre with | some o => o | none => d.reg
     let reg' := reload d.cfg d.disk
@@ -106,7 +115,7 @@ def run (args : List String) : IO UInt32 := do
     ⟨lookupOf (arg kv "lookup"), cmpOf (arg kv "cmp"),
      ((arg kv "wRealm").toInt?).getD 0, ((arg kv "wSwamp").toInt?).getD 0,
      yes (arg kv "persistsInMem"), yes (arg kv "persistsIdle"), yes (arg kv "persistsWi"), yes (arg kv "persistsSize"), yes (arg kv "unchangedChecksType"), yes (arg kv "saveAtomic"), yes (arg kv "unchangedChecksDisk")⟩
-  lineLoop step ⟨cfg, [], none, [], [], none, false, false⟩
+  lineLoop step ⟨cfg, [], none, [], [], none, false, false, []⟩
   return 0
 
 end Driver.C21
